@@ -66,6 +66,39 @@ func ackReplay(c *vh.Ctx) {
 			}
 		}
 	}
+	// shell client path: metadata frame sealed by OpenShellStream, stdin frames by the adapter
+	for i := 0; i < c.N(1, 4); i++ {
+		var so cryptomesh.ShellObs
+		if p := vh.Recover(func() { so = m.ShellStdin(3) }); p != "" {
+			c.Fail("panic", "shell scenario panicked: "+p, map[string]any{"kind": "ack-replay"})
+			break
+		}
+		if so.OpenErr != "" {
+			c.Note("shell client scenario: did not open (%s); not evaluated", so.OpenErr)
+			break
+		}
+		c.Case(fmt.Sprintf("shell-client/%d", i), true, map[string]any{"kind": "ack-replay", "tunnel": "shell-client"})
+		c.Count(fmt.Sprintf("shell-client:echoed-%d-of-%d", so.Echoed, so.Sent))
+	}
+	// duplicated ACKs arriving back-to-back over the real connection
+	{
+		var bo cryptomesh.BurstObs
+		if p := vh.Recover(func() { bo = m.AckBurst(c.N(25, 200), 4) }); p != "" {
+			c.Fail("panic", "ACK burst scenario panicked: "+p, map[string]any{"kind": "ack-replay"})
+		} else {
+			c.Count(fmt.Sprintf("ack-burst-opens:%d", bo.Opens/10*10))
+			if bo.Failed > 0 {
+				c.Note("ACK burst: %d opens failed", bo.Failed)
+			}
+			for _, id := range bo.DerivedTwice {
+				c.Fail("session-key-object-created-twice", fmt.Sprintf("request id %d: when the *_OPEN_ACK arrives several times back-to-back over the peer connection the ingress derives the session key more than once (two SessionKey objects, both starting at nonce counter 0, for one tunnel)", id), map[string]any{"kind": "ack-replay"})
+			}
+			c.Case("ack-burst", bo.Opens > 0, map[string]any{"kind": "ack-replay", "tunnel": "ack-burst"})
+		}
+	}
+	for _, d := range m.WireNonceReuse() {
+		c.Fail("wire-nonce-repeated-within-tunnel", fmt.Sprintf("%s stream %d (%s): nonce %s seen %d times on the wire within one tunnel and direction — one tunnel has one key, so the (key, nonce) pair repeats", d.Side, d.StreamID, d.Frame, d.Nonce, d.Count), map[string]any{"kind": "ack-replay"})
+	}
 	for _, r := range m.NonceReuse() {
 		role := "responder"
 		if r.Initiator {
